@@ -96,6 +96,10 @@ func buildFont(name string) (f *sfnt.Font, err error) {
 	switch name {
 	case "debug-cff":
 		f = debug.MakeSimpleFont()
+		// MakeSimpleFont stamps the font with time.Now(): two instances built
+		// in different seconds would be written as different files
+		f.CreationTime = time.Date(2024, 5, 17, 12, 0, 0, 0, time.UTC)
+		f.ModificationTime = f.CreationTime
 	case "small-glyf":
 		f, err = smallGlyf(goregular.TTF, 48)
 	case "goregular":
@@ -142,8 +146,8 @@ type target struct {
 	font, entry string
 	f           *sfnt.Font
 	fs          []*sfnt.Font // one private instance per worker
-	file        []byte // fault-free output
-	sizes       []int  // chunk sizes of the fault-free run
+	file        []byte       // fault-free output
+	sizes       []int        // chunk sizes of the fault-free run
 	hdr         int
 	bodies      []int
 	tables      map[string][]byte // for header.Write
